@@ -59,7 +59,7 @@ def asym_occupancy(log):
 class Check(DiffCheck):
     id = 'C05'
     coq_dirs = ['Base', 'E3', 'C05']
-    coq_targets = ['C05/C05_AsymProofs.vo', 'C05/C05_AsymTSO.vo', 'C05/C05_Proofs.vo', 'C05/C05_Proofs2.vo', 'C05/C05_Proofs3.vo', 'C05/C05_Proofs4.vo', 'C05/C05_PoolProofs.vo']
+    coq_targets = ['C05/C05_AsymProofs.vo', 'C05/C05_AsymTSO.vo', 'C05/C05_Proofs.vo', 'C05/C05_Proofs2.vo', 'C05/C05_Proofs3.vo', 'C05/C05_Proofs4.vo', 'C05/C05_Proofs5.vo', 'C05/C05_PoolProofs.vo']
     properties_v = 'C05/C05_Properties.v'
     extract_v = 'C05/C05_Extract.v'
     runner_ml = 'ocaml/C05_run.ml'
